@@ -29,8 +29,8 @@ func init() {
 		Title:    "Edits on a board stay within that board",
 		Patterns: []string{"./d2oracle", "./d2ast", "./d2graph"},
 		Explanation: "Decides, for every mutator of d2oracle: (1) the nested board graph (GetBoardGraph) and its BaseAST are tested against nil before use; (2) on every path on which the board path is non-empty, the root graph is recompiled only after ReplaceBoardNode put the edited board AST back (paths are enumerated on the CFG restricted to the true branches of `len(boardPath) > 0`); " +
-			"(3) the root AST (g.AST) is never handed to an AST-mutating helper directly: it is only aliased as the base AST of the root board and passed to ReplaceBoardNode.",
-		NotCovered: "that unrelated boards compile to the same content (semantic); mutation of the caller's AST on refused edits",
+			"(3) the root AST (g.AST) is never handed to an AST-mutating helper directly: it is only aliased as the base AST of the root board and passed to ReplaceBoardNode; (4) writeable-reference discipline: every comparison of the number of writeable references of an element (GetWriteableRefs / GetWriteableEdgeRefs) is against the number of all references of the same element or against zero (the all-or-null decision), and where a function narrowed a reference list to the writeable ones it does not range over the raw list afterwards; (5) board-scope discipline of the mutators — a mutator that resolved the addressed board does not look elements up on the root graph again; calls between functions that take a board path pass it on (never nil); for every element whose references a mutator rewrites through (or picks its insertion scope from) the mutator first asks which references are writeable; helpers that skip references by comparing with the writeable AST compare the board (ScopeAST), not only the file; and in _set every in-place rewrite of an attribute's or label's own key is under a condition that establishes that the key node is part of the addressed board's AST (a predicate comparing node identities against the base AST, or the root-board test).",
+		NotCovered: "that unrelated boards compile to the same content (semantic); loops over raw reference lists in helpers that rely on the caller's all-or-null decision (deleteObject, the body of move after its OutsideScope test); that a refused or no-op edit is the right answer (a Delete of an inherited attribute now leaves the board unchanged instead of nulling it); mutation of the caller's AST on refused edits",
 		Technique:  "static analysis: guard-dominance, edge-filtered must-pass-through on go/cfg, argument provenance",
 		Run:        runC41,
 	})
@@ -728,6 +728,112 @@ func runC41(c *core.Check) {
 	}
 	c.Floor("C41.nil", 8)
 	c.Floor("C41.replace", 4)
+	runC41Refs(c)
+	runC41Scope(c)
+}
+
+// runC41Refs: the writeable-reference discipline. An element of a nested board carries references from the
+// boards it inherits from; only the references that live in the addressed board's AST may be rewritten.
+func runC41Refs(c *core.Check) {
+	c.Rule("C41.all-or-null", "a count of writeable references is compared with the count of all references of the same element (or with zero)")
+	c.Rule("C41.narrowed-refs", "once a reference list was narrowed to the writeable ones, the raw list is not iterated again")
+	pk := c.P.Pkg("d2oracle")
+	if pk == nil {
+		return
+	}
+	info := pk.TypesInfo
+	isWriteable := func(e ast.Expr) (elem string, ok bool) {
+		call, isCall := ast.Unparen(e).(*ast.CallExpr)
+		if !isCall || len(call.Args) < 1 || !(core.IsCallTo(info, call, "d2oracle.GetWriteableRefs") || core.IsCallTo(info, call, "d2oracle.GetWriteableEdgeRefs")) {
+			return "", false
+		}
+		return exprStr(call.Args[0]), true
+	}
+	ncmp, nnarrow := 0, 0
+	for _, fi := range c.P.Funcs(pk) {
+		if fi.Decl.Body == nil {
+			continue
+		}
+		// variables holding a writeable list, with the element they were computed for
+		writeable := map[types.Object]string{}
+		narrowed := map[string]token.Pos{} // element -> position of the narrowing assignment (plain `=`)
+		ast.Inspect(fi.Decl.Body, func(n ast.Node) bool {
+			as, ok := n.(*ast.AssignStmt)
+			if !ok || len(as.Lhs) != 1 || len(as.Rhs) != 1 {
+				return true
+			}
+			if el, ok := isWriteable(as.Rhs[0]); ok {
+				if o := core.ObjOf(info, as.Lhs[0]); o != nil {
+					writeable[o] = el
+					if as.Tok == token.ASSIGN {
+						narrowed[el] = as.End()
+						nnarrow++
+					}
+				}
+			}
+			return true
+		})
+		if len(writeable) == 0 {
+			continue
+		}
+		counts := map[string]int{}
+		ast.Inspect(fi.Decl.Body, func(n ast.Node) bool {
+			switch x := n.(type) {
+			case *ast.BinaryExpr:
+				if x.Op != token.EQL && x.Op != token.NEQ && x.Op != token.LSS && x.Op != token.GTR && x.Op != token.LEQ && x.Op != token.GEQ {
+					return true
+				}
+				lenOfW := func(e ast.Expr) (string, bool) {
+					call, ok := ast.Unparen(e).(*ast.CallExpr)
+					if !ok || exprStr(call.Fun) != "len" || len(call.Args) != 1 {
+						return "", false
+					}
+					el, ok := writeable[core.ObjOf(info, call.Args[0])]
+					return el, ok
+				}
+				el, ok := lenOfW(x.X)
+				other := x.Y
+				if !ok {
+					el, ok = lenOfW(x.Y)
+					other = x.X
+				}
+				if !ok {
+					return true
+				}
+				ncmp++
+				key := fmt.Sprintf("all-or-null:%s:%s", fname(fi), el)
+				counts[key]++
+				if counts[key] > 1 {
+					key = fmt.Sprintf("%s#%d", key, counts[key])
+				}
+				good := false
+				if v, isConst := intConst(info, other); isConst && v == 0 {
+					good = true
+				}
+				if exprStr(ast.Unparen(other)) == "len("+el+".References)" {
+					good = true
+				}
+				c.Decide(good, "C41.all-or-null", key, x.Pos(), "compared with len("+el+".References) or 0",
+					fmt.Sprintf("%s: the number of writeable references of %s is compared with %s instead of the number of all its references; the rewrite then proceeds although some references live in another board, and the loops over %s.References edit that board", exprStr(x), el, exprStr(other), el))
+			case *ast.RangeStmt:
+				el := strings.TrimSuffix(exprStr(x.X), ".References")
+				if el == exprStr(x.X) {
+					return true
+				}
+				if pos, ok := narrowed[el]; ok && x.Pos() > pos {
+					key := fmt.Sprintf("narrowed:%s:range %s.References", fname(fi), el)
+					counts[key]++
+					if counts[key] > 1 {
+						key = fmt.Sprintf("%s#%d", key, counts[key])
+					}
+					c.Fail("C41.narrowed-refs", key, x.Pos(), fmt.Sprintf("%s narrowed the references of %s to the writeable ones and then ranges over %s.References again: references that live in the boards this one inherits from are rewritten too", fname(fi), el, el))
+				}
+			}
+			return true
+		})
+	}
+	c.Decide(ncmp >= 3, "C41.all-or-null", "all-or-null:inventory", token.NoPos, fmt.Sprintf("%d comparisons of a writeable-reference count", ncmp), fmt.Sprintf("only %d comparisons of a writeable-reference count found", ncmp))
+	c.Decide(nnarrow >= 1, "C41.narrowed-refs", "narrowed:inventory", token.NoPos, fmt.Sprintf("%d narrowing assignments, no raw iteration after any of them", nnarrow), "no narrowing assignment found")
 }
 
 func runC37(c *core.Check) {
